@@ -26,7 +26,9 @@ func buildCallGraph(statements []ast.Statement) callGraph {
 		callerName := decl.Name.Value
 		callees := extractCallees(decl.Block)
 		if len(callees) > 0 {
-			graph[callerName] = callees
+			// The name may be declared twice (reported as duplicated).
+			// Keep the calls of every declaration, otherwise the inferred scopes depend on the declaration order
+			graph[callerName] = append(graph[callerName], callees...)
 		}
 	}
 
